@@ -7,6 +7,7 @@ Utilities for hashing, rendering, and general helpers used by the
 symbolic query engine.
 """
 import itertools
+from collections.abc import Iterable
 
 try:
     import six
@@ -137,8 +138,9 @@ def is_iterable(obj: Any) -> bool:
 
     :param obj: The object to check.
     """
-    # looked up on the class, as iter() does: asking the instance would call a user's catch-all __getattr__
-    return hasattr(type(obj), "__iter__") and not isinstance(
+    # looked up in the classes of the object's type, as iter() does: asking the instance would call a user's
+    # catch-all __getattr__, and hasattr(type(obj), ...) would find the metaclass's __iter__ (every Enum member)
+    return isinstance(obj, Iterable) and not isinstance(
         obj, (str, type, bytes, bytearray)
     )
 
